@@ -297,6 +297,7 @@ def m_json_to_string(ex, args, callee):
 
 MODELS = [
     (r'HeaderName::from_lowercase$', m_hname_from_lowercase),
+    (r'HeaderMap::contains_key::|HeaderMap::<.*>::contains_key::', lambda ex, a, c: m_hm_get(ex, a, c).discr == 1),
     (r'<http::Error as From<.*>>::from$', lambda ex, a, c: Opaque('http::Error')),
     (r'Response::<.*>::builder$|^(http::|hyper::)?(response::)?Response::builder$', lambda ex, a, c: RespBuilder()),
     (r'response::Builder::status::|Builder::status::', m_builder_status),
